@@ -22,7 +22,9 @@ void arm_watchdog(int seconds) {
     it.it_value.tv_sec = seconds;
     setitimer(ITIMER_VIRTUAL, &it, nullptr);
 }
-static int watchdog_seconds() { const char *e = getenv("VERIF_WATCHDOG_S"); int v = e ? atoi(e) : 10; return v > 0 ? v : 10; }
+static int g_watchdog_override = 0;      // > 0 while a run that hangs is being minimised (each still-hanging candidate costs this much CPU time)
+static uint64_t g_minimise_budget = 260;
+static int watchdog_seconds() { if (g_watchdog_override > 0) return g_watchdog_override; const char *e = getenv("VERIF_WATCHDOG_S"); int v = e ? atoi(e) : 10; return v > 0 ? v : 10; }
 
 FILE *g_out = nullptr;
 
@@ -190,7 +192,7 @@ std::string crash_clause(const Plan &p, const ChildRes &c) {
 // ---------------------------------------------------------------- minimisation (ddmin over ops, then engine-specific structure)
 Plan minimise(const Plan &start, const std::string &prop, const std::string &clause, uint64_t *runs_used) {
     Plan best = start;
-    uint64_t runs = 0; const uint64_t BUDGET = 260;
+    uint64_t runs = 0; const uint64_t BUDGET = g_minimise_budget;
     auto still = [&](const Plan &q) -> bool {
         if (runs >= BUDGET) return false;
         runs++;
@@ -407,7 +409,14 @@ int run_check(const CheckSpec &spec, const RunOptions &opt) {
         std::string clause2 = c2.crashed ? resolve_crash_owner(p, prop, c2) : c2.clause;
         if (clause2 != clause || c2.hash != c1.hash) { fprintf(g_out, "binsim: GATE FAILED: %s#%llu does not reproduce identically (%s/%016llx vs %s/%016llx)\n", batches[f.batch].engine.c_str(), (unsigned long long)f.index, clause.c_str(), (unsigned long long)c1.hash, clause2.c_str(), (unsigned long long)c2.hash); infra_fail++; continue; }
         uint64_t used = 0;
-        Plan m = c1.hung ? p : minimise(p, prop, c1.crashed ? c1.clause : clause, &used);
+        Plan m;
+        if (c1.hung) {
+            // a run that never ends: minimise with a short watchdog (ordinary runs take milliseconds) and a small budget;
+            // the result is confirmed below with the full watchdog, and dropped in favour of the original plan if it does not hang there
+            g_watchdog_override = 2; g_minimise_budget = 60;
+            m = minimise(p, prop, c1.clause, &used);
+            g_watchdog_override = 0; g_minimise_budget = 260;
+        } else m = minimise(p, prop, c1.crashed ? c1.clause : clause, &used);
         shrink_runs += used;
         ChildRes c3 = run_in_child(m, prop, true);
         std::string clause3 = c3.crashed ? resolve_crash_owner(m, prop, c3) : c3.clause;
